@@ -53,6 +53,11 @@ pub enum Variant {
 
 #[derive(Clone, Debug, Serialize, Deserialize)]
 pub struct Case {
+    /// Some(T): the input source dies after delivering exactly T bytes (the
+    /// file is that short; the feeder closes the pipe there). Units whose last
+    /// line was delivered completely must have taken effect.
+    #[serde(default)]
+    pub cut: Option<u32>,
     pub units: Vec<Unit>,
     /// last line has no trailing newline
     pub no_final_newline: bool,
@@ -608,6 +613,7 @@ pub fn generate(rng: &mut Rng, tier: Tier) -> Case {
             // (keeps the expectation of what the verbose option echoes simple)
             && !units.iter().any(|u| u.verbose == Some(true));
     Case {
+        cut: None,
         units,
         no_final_newline,
         trap,
@@ -699,6 +705,86 @@ pub fn expect(c: &Case) -> Expect {
         has_error,
         echoed: any_verbose.then_some(echoed),
     }
+}
+
+/// For a cut case: (the truncated script, the expectation for the units that
+/// were delivered completely).
+fn expect_cut(c: &Case, t: u32) -> (String, Expect) {
+    let mut full = c.clone();
+    full.cut = None;
+    full.no_final_newline = false;
+    let script = expect(&full).script;
+    let t = (t as usize).min(script.len());
+    // byte offsets are ASCII-safe only if the cut is on a character boundary
+    let mut t = t;
+    while !script.is_char_boundary(t) {
+        t -= 1;
+    }
+    let mut len = 0usize;
+    let mut complete = 0usize;
+    for u in &c.units {
+        len += u.lines.iter().map(|l| l.len() + 1).sum::<usize>();
+        if len <= t {
+            complete += 1;
+        } else {
+            break;
+        }
+    }
+    let mut prefix = full.clone();
+    prefix.units.truncate(complete);
+    (script[..t].to_string(), expect(&prefix))
+}
+
+fn check_cut(prefix: &Expect, variant: Variant, obs: &Observed) -> Option<Viol> {
+    if let Some(v) = check_liveness(obs) {
+        return Some(v);
+    }
+    if !obs.stdout.starts_with(&prefix.stdout) {
+        return Some((
+            "trace".into(),
+            format!("cut:trace:{variant:?}"),
+            format!(
+                "variant {variant:?}, input cut short: the completely delivered commands print {:?}, observed stdout {:?} status {}\nstderr {:?}",
+                prefix.stdout, obs.stdout, obs.status, obs.stderr
+            ),
+        ));
+    }
+    // tells of the completely delivered units: executed, at the right offset
+    let mut consumed: u64 = 0;
+    let mut seen = Vec::new();
+    for e in &obs.history {
+        match e.kind.as_str() {
+            "read" if e.pid == 2 && e.a == 0 => consumed += e.b as u64,
+            "tell" if e.pid == 2 => {
+                let k: u32 = e.text.trim().parse().unwrap_or(0);
+                let Some(want) = prefix.tells.iter().find(|t| t.0 == k).map(|t| t.1) else {
+                    continue;
+                };
+                seen.push(k);
+                let got = if variant == Variant::FileStdin { e.a as u64 } else { consumed };
+                if got != want {
+                    return Some((
+                        "read-ahead".into(),
+                        format!("cut:read-ahead:{variant:?}"),
+                        format!("variant {variant:?}, input cut short: at `tell {k}` the input offset is {got}, expected {want}"),
+                    ));
+                }
+            }
+            _ => {}
+        }
+    }
+    let mut want: Vec<u32> = prefix.tells.iter().map(|t| t.0).collect();
+    want.sort();
+    seen.sort();
+    seen.dedup();
+    if want != seen {
+        return Some((
+            "trace".into(),
+            "cut:trace:tells".into(),
+            format!("input cut short: tell probes of the completely delivered commands executed {seen:?}, expected {want:?}"),
+        ));
+    }
+    None
 }
 
 fn spec_of(exp: &Expect, variant: Variant) -> ScriptSpec {
@@ -882,6 +968,25 @@ fn check_run(exp: &Expect, variant: Variant, obs: &Observed) -> Option<Viol> {
 }
 
 fn run_one(c: &Case, variant: Variant, cfg: &SimConfig, decider: Decider) -> (Observed, Option<Viol>) {
+    if let Some(t) = c.cut {
+        let (script, prefix) = expect_cut(c, t);
+        let mut spec = spec_of(&prefix, variant);
+        spec.script = script.clone();
+        let bytes = script.into_bytes();
+        let obs = run_script_with(
+            &spec,
+            cfg,
+            decider,
+            |w| {
+                if variant == Variant::PipeStdin {
+                    plumb_feeder(w, bytes);
+                }
+            },
+            |_, _| true,
+        );
+        let v = check_cut(&prefix, variant, &obs);
+        return (obs, v);
+    }
     let exp = expect(c);
     let spec = spec_of(&exp, variant);
     let script = exp.script.clone().into_bytes();
@@ -926,11 +1031,14 @@ struct Stored {
 }
 
 fn failure(c: &Case, variant: Variant, cfg: &SimConfig, obs: &Observed, v: Viol) -> Failure {
-    let exp = expect(c);
+    let shown = match c.cut {
+        Some(t) => format!("{}<input ends here, after {t} bytes>", expect_cut(c, t).0),
+        None => expect(c).script,
+    };
     Failure {
         class: v.0,
         key: v.1,
-        detail: format!("{}\n--- script ({variant:?}) ---\n{}", v.2, exp.script),
+        detail: format!("{}\n--- script ({variant:?}) ---\n{}", v.2, shown),
         case: serde_json::to_value(Stored {
             case: c.clone(),
             variant,
@@ -1028,6 +1136,29 @@ impl Prop for C18 {
             if let Some(v) = v {
                 stats.count("violating_runs", 1);
                 return Some(failure(&case, variant, &cfg, &obs, v));
+            }
+        }
+        // the input source dies at a seeded byte offset: what was delivered
+        // completely has taken effect, nothing hangs
+        let cut_runs = match tier {
+            Tier::Quick => 2,
+            Tier::Thorough => 6,
+        };
+        if !case.trap && exp.script.len() > 2 {
+            for j in 0..cut_runs {
+                let mut cut = case.clone();
+                cut.cut = Some(rng.range(1, exp.script.len() as u32 - 1));
+                let variant = if j % 2 == 0 { Variant::PipeStdin } else { Variant::FileStdin };
+                let cfg = draw_config(&mut rng, 1 + j);
+                let (obs, v) = run_one(&cut, variant, &cfg, Decider::record(Rng::stream(seed, 1890 + j as u64, index)));
+                stats.note_run(case_hash ^ 0xC07 ^ (j as u64) << 20, &obs.outcome, obs.faults_fired + 1);
+                stats.add_counters(&obs.counters);
+                stats.digest(index, obs_digest(&obs));
+                stats.count("input_cut_short", 1);
+                if let Some(v) = v {
+                    stats.count("violating_runs", 1);
+                    return Some(failure(&cut, variant, &cfg, &obs, v));
+                }
             }
         }
         None
